@@ -35,3 +35,14 @@ package otlpmetricgrpc
 //@   ensures (s.Code() == codes.Canceled || s.Code() == codes.DeadlineExceeded || s.Code() == codes.Aborted || s.Code() == codes.OutOfRange || s.Code() == codes.Unavailable || s.Code() == codes.DataLoss) ==> ok && d == snd(throttleDelay(s))
 //@   ensures s.Code() == codes.ResourceExhausted ==> ok == fst(throttleDelay(s)) && d == snd(throttleDelay(s))
 //@   ensures !(s.Code() == codes.Canceled || s.Code() == codes.DeadlineExceeded || s.Code() == codes.Aborted || s.Code() == codes.OutOfRange || s.Code() == codes.Unavailable || s.Code() == codes.DataLoss || s.Code() == codes.ResourceExhausted) ==> !ok && d == 0
+
+// exportContext: the context an export runs under is derived from the caller's context with the export timeout (or a plain cancel
+// when no timeout is configured), and the outgoing metadata is attached to THAT derived context - so headers never cost the deadline
+//@ func (c *client) exportContext(parent context.Context) (ctx context.Context, cancel context.CancelFunc)
+//@   overflow assumed
+//@   unchecked frame,no-panic context and gRPC metadata packages; the trace client also spawns the stop-context watcher
+//@   requires c != nil
+//@   assert@call WithTimeout#1 : $arg0 == parent && $arg1 == c.exportTimeout && c.exportTimeout > 0
+//@   assert@call WithCancel#1 : $arg0 == parent && c.exportTimeout <= 0
+//@   assert@call NewOutgoingContext#1 : $arg0 == ctx && $arg1 === md
+//@   assert@call FromOutgoingContext#1 : $arg0 == ctx
